@@ -2,6 +2,7 @@
 Props/C10EB.lean — property C10, part 3: electric and magnetic parts, Levi-Civita tables (T4, T5, D9).
 See Props/C10.lean for the overview.
 -/
+import AurelVerif.Lemmas.C10LC
 import AurelVerif.Lemmas.C10EB
 import AurelVerif.Lemmas.C10B
 import AurelVerif.Lemmas.C10Weyl
